@@ -173,12 +173,27 @@ func (h *NFSProcedureHandler) handleFsinfo(body io.Reader, reply *RPCReply, auth
 		return nfsErrorWithPostOp(reply, NFSERR_IO), nil
 	}
 
-	binary.Write(&buf, binary.BigEndian, uint32(1048576))       // rtmax
-	binary.Write(&buf, binary.BigEndian, uint32(65536))         // rtpref
-	binary.Write(&buf, binary.BigEndian, uint32(4096))          // rtmult
-	binary.Write(&buf, binary.BigEndian, uint32(1048576))       // wtmax
-	binary.Write(&buf, binary.BigEndian, uint32(65536))         // wtpref
-	binary.Write(&buf, binary.BigEndian, uint32(4096))          // wtmult
+	// Advertise what READ and WRITE actually serve: the configured transfer size
+	// (WRITE refuses larger counts), capped so that a full-size WRITE together with
+	// its RPC header and arguments still fits in one record (DefaultMaxRecordSize).
+	maxTransfer := uint32(DefaultMaxRecordSize - 4096)
+	if ts := h.server.handler.tuning.Load().TransferSize; ts > 0 && uint64(ts) < uint64(maxTransfer) {
+		maxTransfer = uint32(ts)
+	}
+	prefTransfer := uint32(65536)
+	if prefTransfer > maxTransfer {
+		prefTransfer = maxTransfer
+	}
+	multTransfer := uint32(4096)
+	if multTransfer > maxTransfer {
+		multTransfer = maxTransfer
+	}
+	binary.Write(&buf, binary.BigEndian, maxTransfer)           // rtmax
+	binary.Write(&buf, binary.BigEndian, prefTransfer)          // rtpref
+	binary.Write(&buf, binary.BigEndian, multTransfer)          // rtmult
+	binary.Write(&buf, binary.BigEndian, maxTransfer)           // wtmax
+	binary.Write(&buf, binary.BigEndian, prefTransfer)          // wtpref
+	binary.Write(&buf, binary.BigEndian, multTransfer)          // wtmult
 	binary.Write(&buf, binary.BigEndian, uint32(8192))          // dtpref (C1: uint32 not uint64)
 	binary.Write(&buf, binary.BigEndian, uint64(1099511627776)) // maxfilesize
 	binary.Write(&buf, binary.BigEndian, uint32(0))             // time_delta.seconds
